@@ -89,7 +89,8 @@ def frag_ids(frag, out):
 class C03(PropCheck):
     id = 'C03'
     extractors = ()
-    modules = ('WpModel.Props.C03', 'WpModel.Props.C03Geo', 'WpModel.Props.C03Trace', 'WpModel.Witness.C03')
+    modules = ('WpModel.Props.C03', 'WpModel.Props.C03Geo', 'WpModel.Props.C03Trace', 'WpModel.Witness.C03',
+               'WpModel.Props.C03Pm2', 'WpModel.Witness.C03Pm2')
     trusted_base = (
         'modelled, not verified: the block/line pagination functions of block.py and page.py as '
         'lean/WpModel/Model/Paginate.lean (see C01)',
@@ -137,7 +138,8 @@ class C03(PropCheck):
     def finding_replays(self):
         return {'table-in-columns-rows-overflow': table_in_columns_overflow,
                 'clone-negative-margin-bottom': clone_negative_margin,
-                'table-rows-after-overflowing-first-item': lambda: corpus_overflow('table_rows_after_overflow')}
+                'table-rows-after-overflowing-first-item': lambda: corpus_overflow('table_rows_after_overflow'),
+                'stale-next-page-blank-pages': lambda: stale_next_page()[0]}
 
     def judge(self, d):
         if d['section'] == 'families':
@@ -186,6 +188,22 @@ class C03(PropCheck):
             return (f'page {meta["page_index"]}: in-flow items {bad} end below the content box bottom {bottom} '
                     f'without being first on their page') if bad else None
         return None
+
+
+STALE_NEXT_PAGE = (
+    '<style>@page{size:200px 45px;margin:0}html,body{margin:0}p{margin:0}body{font-size:10px;line-height:10px}</style>'
+    '<p>a1<br>a2<br>a3</p><div style="break-before:avoid;height:100px"><p>b1</p>'
+    '<p style="break-before:right">c1</p></div>')
+
+
+def stale_next_page():
+    """(blank pages that no side break asks for?, fragments of the first paragraph on non-consecutive pages?)"""
+    docs.quiet()
+    texts = [[t.strip() for t in page if t.strip()] for page in docs.page_texts(docs.render(STALE_NEXT_PAGE))]
+    blanks = sum(1 for page in texts if not page)
+    first = [i for i, page in enumerate(texts) if any(t in ('a1', 'a2', 'a3') for t in page)]
+    # the only side break is before `c1`: at most one blank page is required
+    return blanks > 1, first != list(range(first[0], first[0] + len(first))) if first else False
 
 
 def clone_negative_margin():
